@@ -13,3 +13,4 @@ pub mod depth;
 pub mod introspect;
 pub mod execvalid;
 pub mod order;
+pub mod executor;
